@@ -1,5 +1,5 @@
 # replay of a bounded stand-in violation (C11): re-run native/c11_compilers.py
 import sys
-print("gaussian_merge n=5 gates=[('Dgate', (0,)), ('Sgate', (2,)), ('Sgate', (3,)), ('Kgate', (0,)), ('Sgate', (0,)), ('BSgate', (1, 0)), ('S2gate', (0, 2)), ('S2gate', (1, 4)), ('Kgate', (3,)), ('Dgate', (0,)), ('Rgate', (2,))]: with the opaque gates interpreted as fixed unitaries the compiled program [('Dgate', [0]), ('Sgate', [3]), ('Kgate', [0]), ('Kgate', [3]), ('GaussianTransform', [0, 1, 2, 4]), ('Dgate', [0]), ('MeasureFock', [0, 1, 2, 3, 4])] computes something else (max difference 0.934)")
+print("passive n=6 modes=[5, 3, 4, 2, 1] gates=[('BSgate', (2, 4)), ('BSgate', (1, 2)), ('Interferometer', (1, 3)), ('BSgate', (5, 4)), ('MZgate', (5, 2)), ('BSgate', (5, 1)), ('BSgate', (4, 3)), ('BSgate', (4, 2)), ('BSgate', (4, 2)), ('Rgate', (5,)), ('Rgate', (2,)), ('PassiveChannel', (1,)), ('Rgate', (1,)), ('Rgate', (2,)), ('BSgate', (4, 2)), ('Rgate', (5,))]: compiled program leaves a different Gaussian state (max difference 0.69)")
 print('REPLAY-VIOLATION')
 sys.exit(1)
